@@ -15,7 +15,6 @@ RULE = ("case = (struct type shape, construction flavour (@bitstruct / mk_bitstr
         "nested struct or a list field or two adjacent equal-width fields, and the value is non-zero in "
         ">= 2 leaves (or the type has a single leaf); distinct by (type description, values)")
 ASSUMPTIONS = [
-  "hash() of a struct with list fields raises TypeError in Python (lists are unhashable): tolerated; a wrong hash is not",
   "spec layout is the one stated in the property: first field most significant, list element 0 least significant",
 ]
 QUICK_S = 60
@@ -92,8 +91,8 @@ def judge(case):
       ha, hb, ha2 = hash(a), hash(b), hash(mkv(case["v1"]))
       if ha != ha2: return "hash:unequal_for_equal", ""
       if pa == pb and ha != hb: return "hash:unequal_for_equal", ""
-    except TypeError:
-      if not S.features(t)["list"]: return "hash:typeerror_without_list", ""
+    except TypeError as ex:
+      return ("hash:typeerror_with_list_field" if S.features(t)["list"] else "hash:typeerror_without_list"), str(ex)
     # ---- clone / deepcopy independent
     for nm, mk in (("clone", lambda v: v.clone()), ("deepcopy", lambda v: copy.deepcopy(v))):
       c = mk(a)
